@@ -36,6 +36,13 @@ def run(tier, seed):
     # payloads lacking an info file at the shortened names
     crowded = dict(CFG, profile="collide")
     tasks += [{"pid": "C01c", "seed": seed, "i": i, "cfg": crowded} for i in range(n // 5)]
+    # -v / -vv with the diagnostics going into a pipe whose reader went away after n lines (`trash-put -vv ... 2>&1 | head -n`),
+    # or nowhere at all (2>&-): however the run ends, each argument is fully trashed or untouched
+    verbose = dict(CFG, profile="single")
+    for i in range(n // 10):
+        for nth, kind in ((i % 4, {"pipe": True}), (0, {"closed": True})):
+            tasks.append({"pid": "C01v", "seed": seed, "i": i, "cfg": verbose, "force_verbose": 1 + i % 2,
+                          "plan": {"stderr_fault": dict({"nth": nth, "errno": "EPIPE"}, **kind)}})
     absorb(ck, "C01", run_tasks(eval_task, tasks), CFG, "Model.Put")
     # conservation must also hold when several trash-put processes share a trash directory
     from . import parworlds
